@@ -8,7 +8,9 @@ for pid in ids:
     if not os.path.exists(f"{d}/patch.diff"):
         continue
     subprocess.run(["git", "-C", "/repo", "checkout", "--", "."], check=True)
-    r = subprocess.run(["git", "-C", "/repo", "apply", f"{d}/patch.diff"], capture_output=True, text=True)
+    # a patch written against an older /repo is kept as it was; its re-confirmed rebase is used
+    patch = f"{d}/patch_rebased.diff" if os.path.exists(f"{d}/patch_rebased.diff") else f"{d}/patch.diff"
+    r = subprocess.run(["git", "-C", "/repo", "apply", patch], capture_output=True, text=True)
     if r.returncode != 0:
         print(pid, "patch does not apply:", r.stderr[:200]); continue
     t0 = time.time()
